@@ -189,7 +189,55 @@ func genConcCase(rng *simrt.Rng, o *ConcOpts) *ConcCase {
 	if o.WakeDuel && rng.Intn(4) == 0 {
 		wakeDuel(rng, cc, pg)
 	}
+	if o.IterDuel && rng.Intn(4) == 0 {
+		iterDuel(rng, cc, pg)
+	}
 	return cc
+}
+
+// iterDuel replaces the generated programs by a tiny "traversal vs rewrite with a shorter life"
+// scenario: value-dependent lifetimes (a long one for the prefilled values, a short one for the
+// rewrites), all keys in two bucket chains, one task traversing slowly while another rewrites a key
+// and moves the clock past the new, short deadline but not past the old, long one. The traversal
+// has snapshotted the old node; whatever it yields for that key afterwards must not be expired.
+func iterDuel(rng *simrt.Rng, cc *ConcCase, pg *OpGen) {
+	cfg := &cc.Cfg
+	long := int64(1)<<32 + int64(rng.Intn(1<<20))
+	short := int64(50 + rng.Intn(5000))
+	cfg.Expiry = "custom"
+	cfg.ExpD = long
+	cfg.ExpTbl = [3][]int64{{long, short}, {long, short}, nil}
+	if cfg.Bound == "weight" {
+		cfg.Bound, cfg.Weights = "size", nil
+	}
+	if cfg.bounded() {
+		cfg.Max = 100
+	}
+	cfg.HashMode = 1
+	cfg.Keys = 3 + rng.Intn(4)
+	val := func(k int, wantShort bool) int {
+		v := pg.newVal()
+		if ((k*7+v)%2 == 1) != wantShort {
+			v++
+		}
+		return v
+	}
+	cc.Prefill = nil
+	for k := 0; k < cfg.Keys; k++ {
+		cc.Prefill = append(cc.Prefill, Op{Kind: "set", K: k, V: val(k, false)})
+	}
+	trav := func() Op { return Op{Kind: []string{"all", "all", "values"}[rng.Intn(3)]} }
+	rewrite := func() []Op {
+		k := rng.Intn(cfg.Keys)
+		return []Op{{Kind: "set", K: k, V: val(k, true)}, {Kind: "advance", D: short + int64(rng.Intn(4))}}
+	}
+	cc.Tasks = [][]Op{{trav()}, rewrite()}
+	if rng.Intn(2) == 0 {
+		cc.Tasks = append(cc.Tasks, rewrite())
+	}
+	if rng.Intn(3) == 0 {
+		cc.Tasks[0] = append(cc.Tasks[0], trav())
+	}
 }
 
 // wakeDuel replaces the generated programs by a tiny "who schedules the maintenance" scenario
